@@ -57,6 +57,11 @@ func manifestYAML(name string, needsColor bool, constraint string, components bo
 		b.WriteString("  constraints:\n  - platformVersion:\n      name: Kubernetes\n      range: \">=1.99.0\"\n")
 	case "unique":
 		b.WriteString("  constraints:\n  - uniqueInScope: {}\n")
+	case "mixed":
+		// the OpenShift version constraint does not apply on plain Kubernetes; the one after it is unmet
+		b.WriteString("  constraints:\n  - platformVersion:\n      name: OpenShift\n      range: \">=4.0.0\"\n  - platformVersion:\n      name: Kubernetes\n      range: \">=1.99.0\"\n")
+	case "met":
+		b.WriteString("  constraints:\n  - platformVersion:\n      name: OpenShift\n      range: \">=4.0.0\"\n  - platformVersion:\n      name: Kubernetes\n      range: \">=1.20.0\"\n  - platform: [Kubernetes]\n")
 	}
 	return b.String()
 }
@@ -78,7 +83,7 @@ func buildImage(ref, class string, variant int) *PkgImage {
 	img := &PkgImage{Ref: ref, Class: class, Name: "pkg-" + ref, Files: map[string][]byte{}}
 	pn := `{{.package.metadata.name}}`
 	switch class {
-	case "valid", "needs-config", "constraint-openshift", "constraint-version", "constraint-unique", "big":
+	case "valid", "needs-config", "constraint-openshift", "constraint-version", "constraint-unique", "constraint-mixed", "constraint-met", "big":
 		constraint := ""
 		switch class {
 		case "constraint-openshift":
@@ -87,6 +92,10 @@ func buildImage(ref, class string, variant int) *PkgImage {
 			constraint = "version"
 		case "constraint-unique":
 			constraint = "unique"
+		case "constraint-mixed":
+			constraint = "mixed"
+		case "constraint-met":
+			constraint = "met"
 		}
 		img.NeedsColor = class == "needs-config"
 		img.Files["manifest.yaml"] = []byte(manifestYAML(img.Name, img.NeedsColor, constraint, false))
@@ -165,7 +174,7 @@ func (img *PkgImage) Admissible(spec map[string]any, scopeCluster bool, others i
 		return false, "validation"
 	case "bad-object":
 		return false, "object-validation"
-	case "constraint-openshift", "constraint-version":
+	case "constraint-openshift", "constraint-version", "constraint-mixed":
 		return false, "constraint"
 	case "constraint-unique":
 		if others > 0 {
@@ -255,7 +264,7 @@ type PKGGen struct {
 
 var hostileClasses = []string{"bad-condition-map", "torn", "torn-late", "corrupt-header", "empty-image", "garbage-yaml", "no-kind", "weird-annotations", "deep-template", "manifest-list", "non-string-annotation"}
 
-var imageClasses = []string{"valid", "valid", "needs-config", "multi", "no-manifest", "garbled-manifest", "bad-manifest", "bad-object", "constraint-openshift", "constraint-version", "pull-fails", "big"}
+var imageClasses = []string{"valid", "valid", "needs-config", "multi", "no-manifest", "garbled-manifest", "bad-manifest", "bad-object", "constraint-openshift", "constraint-version", "constraint-mixed", "constraint-met", "pull-fails", "big"}
 
 // GenPKG generates (Cluster)Packages, the images behind them and spec edits.
 func GenPKG(w *World, maxEdits int, opts ...string) *Scenario {
